@@ -143,7 +143,7 @@ func newSim(rt *rapid.T, c *stats.Case, bulk bool) *sim {
 		powers = [][]types.VotingPower{{1, 1, 1, 1}}
 		c.Label("cfg:n4f1")
 	} else {
-		n := rapid.SampledFrom([]int{1, 2, 3, 3, 4, 4, 5, 5, 6, 6, 7, 7}).Draw(rt, "n")
+		n := rapid.SampledFrom([]int{1, 2, 3, 3, 4, 4, 5, 5, 6, 6, 7, 7, 4, 5, 6, 7, 8, 10, 13, 16}).Draw(rt, "n") // a fifth of the weighted cases: committees above 7 (the step budget grows with n)
 		k := rapid.SampledFrom([]int{0, 1, 1, 1, 2, 2, 3}).Draw(rt, "nbyz")
 		if k > n-1 {
 			k = n - 1
@@ -801,6 +801,9 @@ func (s *sim) done() bool {
 
 func (s *sim) run() {
 	s.maxStep = rapid.IntRange(60*s.nh, 300+100*s.nh).Draw(s.rt, "steps")
+	if s.n > 7 {
+		s.maxStep = s.maxStep * s.n * s.n / 49 // messages per vote phase grow with n^2
+	}
 	for _, i := range s.correct {
 		s.tracef("#start validator %d", i)
 		s.startHeight(s.nodes[i])
